@@ -392,6 +392,8 @@ def gen(rnd, *, core=False, res_choices=(60, 60, 30, 15), subslot=True, alap=Non
             t["start"] = m["start"] + timedelta(days=rnd.randrange(0, 7), minutes=rnd.randrange(0, 24 * 60, res))
             if rnd.random() < 0.15:
                 t["start"] = m["start"]        # pinned exactly at the project start (also written ${projectstart})
+            elif subslot and not core and res >= 10 and rnd.random() < 0.15:
+                t["start"] += timedelta(minutes=rnd.choice([res // 2, res // 3, 7 if res > 7 else 1]))   # a pin INSIDE a slot
         tasks.append(t)
     m["tasks"] = tasks
     # containers that ended up childless become leaves (milestones): the parser treats them so
@@ -400,6 +402,18 @@ def gen(rnd, *, core=False, res_choices=(60, 60, 30, 15), subslot=True, alap=Non
             t["container"] = False
             t["milestone"] = True
             t.pop("limits", None)
+    # an effort written on a container is inherited by the leaves below it that give none themselves (only containers whose
+    # children are all effort leaves qualify: a milestone would inherit the effort too)
+    if not core:
+        for c in tasks:
+            if c["container"] and rnd.random() < 0.12:
+                kids = [tm_ for tm_ in tasks if tm_["path"][:-1] == c["path"]]
+                if kids and all((not k["container"]) and "effort_min" in k for k in kids):
+                    c["c_effort_min"] = kids[0]["effort_min"]
+                    for k in kids:
+                        if k is kids[0] or rnd.random() < 0.5:
+                            k["effort_min"] = c["c_effort_min"]
+                            k["effort_inherited"] = True
     if m["alap"]:
         succ = set()
         for a, lst in leaf_edges(m).items():
@@ -667,8 +681,11 @@ def render(m, refrnd=None, precrnd=None, extra_header=None, scenarios=None, trai
             sc_lines.append("%s  %s:end %s" % (i, sc, fmt_dt(v)))
         if t.get("sc_first"):
             L.extend(sc_lines)
+        if "c_effort_min" in t:
+            L.append("%s  effort %dmin" % (i, t["c_effort_min"]))      # on a container: inherited by leaves without an effort of their own
         if "effort_min" in t:
-            L.append("%s  effort %dmin" % (i, t["effort_min"]))
+            if not t.get("effort_inherited"):
+                L.append("%s  effort %dmin" % (i, t["effort_min"]))
             a = ", ".join(t["alloc"])
             if t.get("alt"):
                 a += " { alternative " + ", ".join(t["alt"]) + " }"
@@ -702,7 +719,11 @@ def render(m, refrnd=None, precrnd=None, extra_header=None, scenarios=None, trai
                 if opts:
                     s += " { " + " ".join(opts) + " }"
                 ds.append(s)
-            if ds:
+            if len(ds) >= 2 and (len(ds) + sum(len(x) for x in ds)) % 3 == 0:
+                # several 'depends' statements in one body add up (seeded change C04-e kept the last one only)
+                for x in ds:
+                    L.append("%s  depends %s" % (i, x))
+            elif ds:
                 L.append("%s  depends %s" % (i, ", ".join(ds)))
         if path in prec:
             ps = []
